@@ -117,6 +117,10 @@ class Script:
     def pipe(self, a, b, fill=0):
         self.lines.append("PIPE %d %d %d" % (a, b, fill))
 
+    def prx(self, a, b, k, fa, fb, fill_a=0, fill_b=0):
+        """interface a's frame, preempted at its k-th port call by interface b's frame"""
+        self.lines.append("PRX %d %d %d %d %d %s %d %d %s" % (a, b, k, len(fa), fill_a, fa.hex(), len(fb), fill_b, fb.hex()))
+
     def adv(self, ms):
         self.lines.append("ADV %d" % ms)
 
